@@ -1,6 +1,8 @@
 package main
 
 import (
+	"go/types"
+	"regexp"
 	"strings"
 
 	"golang.org/x/tools/go/ssa"
@@ -272,6 +274,34 @@ func checkC08(c *Ctx) {
 				ok = false
 			}
 		})
+		if !ok {
+			// the same removal through a private in-place filter of the collector (`s.retain(func(t) bool { return t.View >= v })`)
+			for _, cs := range callsIn(dov, false, func(cc *ssa.CallCommon) bool {
+				return cc.StaticCallee() != nil && c08InPlaceFilter(p, cc.StaticCallee()) != nil
+			}) {
+				fh := c08InPlaceFilter(p, cs.Common().StaticCallee())
+				if fh.pred >= len(cs.Common().Args) || fd.K.Key(cs.Common().Args[0]) != "p0" {
+					continue
+				}
+				pf, okP := predicateFactsPol(fd, cs.Common().Args[fh.pred], !fh.keep)
+				if !okP {
+					continue
+				}
+				detail = "facts when an element is removed: "
+				nCmp, hit := 0, false
+				for _, f := range pf {
+					detail += f.String() + "; "
+					if f.Op == "after" {
+						continue
+					}
+					nCmp++
+					if f.Op == "<" && f.L == "elem."+kTOMsg+"View" && f.R == "p1" {
+						hit = true
+					}
+				}
+				ok = hit && nCmp == 1
+			}
+		}
 		c.Check(ok, "C08.6", "deleteOldViews: removes exactly t.View < currentView", p.FuncPos(dov),
 			"DeleteFunc predicate is t.View < currentView (timeouts of the current and future views are kept)", detail)
 	} else {
@@ -319,6 +349,41 @@ func checkC08(c *Ctx) {
 					bad = append(bad, p.InstrPos(st)+": DeleteFunc with a predicate that is not a comparison of t.View")
 				}
 			default:
+				// the store of an in-place filter helper: what it removes is decided by each caller's predicate
+				if fh := c08InPlaceFilter(p, w.Fn); fh != nil {
+					callers := callIndexOf(p).callers[w.Fn]
+					okAll := len(callers) > 0 && !callIndexOf(p).asValue[w.Fn]
+					for _, r := range callers {
+						ci, isCI := r.Instr.(ssa.CallInstruction)
+						if !isCI || fh.pred >= len(ci.Common().Args) {
+							okAll = false
+							continue
+						}
+						pf, okP := predicateFactsPol(NewFlow(p, r.In), ci.Common().Args[fh.pred], !fh.keep)
+						okPred := okP
+						nView := 0
+						for _, f := range pf {
+							if f.Op == "after" {
+								continue
+							}
+							if (f.Op == "==" || f.Op == "<") && (strings.Contains(f.L, kTOMsg+"View") || strings.Contains(f.R, kTOMsg+"View")) {
+								nView++
+							} else {
+								okPred = false
+							}
+						}
+						if !okPred || nView == 0 {
+							okAll = false
+							bad = append(bad, p.InstrPos(r.Instr)+": filter with a predicate that is not a comparison of t.View")
+						}
+					}
+					if okAll {
+						break
+					}
+					if len(bad) > 0 {
+						break
+					}
+				}
 				bad = append(bad, p.InstrPos(st)+": timeouts := "+shortVal(vk))
 			}
 		}
@@ -450,6 +515,19 @@ func c08PerViewQuorum(c *Ctx, fa *Flow, add *ssa.Function) {
 		// (a) threshold: QuorumSize() <= len(list)
 		okT := hasCmp(facts, "<=", contains(kQuorumSize), func(k string) bool { return strings.HasPrefix(k, "builtin len("+lk+")") }) ||
 			hasCmp(facts, "<=", contains(kQuorumSize), func(k string) bool { return strings.HasPrefix(k, "builtin len(") && sameListLen(fa, list, k) })
+		if !okT {
+			// the quorum is tested on a counter of the timeouts that pass the same test over the same collection as the
+			// elements of the list built afterwards: the count is the list's length
+			eachInstr(add, func(in ssa.Instruction) {
+				ph, isPhi := in.(*ssa.Phi)
+				if !isPhi || okT {
+					return
+				}
+				if hasCmp(facts, "<=", contains(kQuorumSize), is(fa.K.Key(ph))) && c08CountIsListLen(fa, ph, list) {
+					okT = true
+				}
+			})
+		}
 		c.Check(okT, "C08.3/threshold", "timeoutCollector.add: quorum compares the returned list", p.Pos(r.Pos()),
 			"(list, true) is returned only under QuorumSize() <= len(list)",
 			"the quantity compared with QuorumSize() is not the length of the returned list; facts: "+join(facts.Sorted()))
@@ -703,4 +781,231 @@ func sliceBase(v ssa.Value) ssa.Value {
 		return s.X
 	}
 	return v
+}
+
+var phiIDRe = regexp.MustCompile(`phi@b\d+i\d+`)
+
+// c08CountIsListLen: ph counts, while ranging over a slice field, the elements that pass a test; list is built by
+// appending, while ranging over the same field, exactly the elements that pass the same test; the field is not
+// written between the two loops. Then ph == len(list).
+func c08CountIsListLen(fa *Flow, ph *ssa.Phi, list ssa.Value) bool {
+	incs := counterIncrements(ph)
+	base := elementCounterBase(ph)
+	if len(incs) == 0 || base == nil {
+		return false
+	}
+	baseKey := fa.K.Key(base)
+	norm := func(fs FactSet, elemPrefix string) map[string]bool {
+		out := map[string]bool{}
+		for f := range fs {
+			if f.Op == "after" || !(strings.Contains(f.L, elemPrefix) || strings.Contains(f.R, elemPrefix)) {
+				continue
+			}
+			out[phiIDRe.ReplaceAllString(f.String(), "phi")] = true
+		}
+		return out
+	}
+	elemPrefix := baseKey + "[(phi@"
+	var want map[string]bool
+	for _, inc := range incs {
+		got := norm(fa.At(inc), elemPrefix)
+		if len(got) == 0 {
+			return false
+		}
+		if want == nil {
+			want = got
+		} else if !sameStringSet(want, got) {
+			return false
+		}
+	}
+	// the list: a loop-header phi fed by an empty make and by appends of the range element under the same test
+	lp, ok := list.(*ssa.Phi)
+	if !ok || !isLoopHeaderPhi(lp) {
+		return false
+	}
+	nApp := 0
+	for _, e := range lp.Edges {
+		switch x := e.(type) {
+		case *ssa.MakeSlice:
+			if !isIntConst(x.Len, 0) {
+				return false
+			}
+		case *ssa.Phi:
+			if x != lp {
+				return false
+			}
+		case *ssa.Call:
+			b, isB := x.Call.Value.(*ssa.Builtin)
+			if !isB || b.Name() != "append" || x.Call.Args[0] != ssa.Value(lp) {
+				return false
+			}
+			nApp++
+			elemOK := false
+			storedInto(sliceBase(x.Call.Args[1]), func(ev ssa.Value) bool {
+				ek := fa.K.Key(ev)
+				elemOK = strings.HasPrefix(ek, elemPrefix) && strings.HasSuffix(ek, ")]")
+				return false
+			})
+			if !elemOK || !sameStringSet(want, norm(fa.At(x), elemPrefix)) {
+				return false
+			}
+		default:
+			if !isNilConst(e) {
+				return false
+			}
+		}
+	}
+	if nApp == 0 {
+		return false
+	}
+	// the collection is the same in both loops: no store to the field can lie between them
+	between := false
+	eachInstr(fa.Fn, func(in ssa.Instruction) {
+		st, ok := in.(*ssa.Store)
+		if !ok || fa.K.Key(st.Addr) != "&"+baseKey {
+			return
+		}
+		fromCount := blockReaches(ph.Block(), st.Block())
+		toList := blockReaches(st.Block(), lp.Block())
+		if fromCount && toList {
+			between = true
+		}
+	})
+	return !between
+}
+
+func sameStringSet(a, b map[string]bool) bool {
+	if len(a) != len(b) {
+		return false
+	}
+	for k := range a {
+		if !b[k] {
+			return false
+		}
+	}
+	return true
+}
+
+// blockReaches: to is reachable from from (or is from).
+func blockReaches(from, to *ssa.BasicBlock) bool {
+	if from == to {
+		return true
+	}
+	seen := map[*ssa.BasicBlock]bool{from: true}
+	work := []*ssa.BasicBlock{from}
+	for len(work) > 0 {
+		b := work[0]
+		work = work[1:]
+		for _, s := range b.Succs {
+			if s == to {
+				return true
+			}
+			if !seen[s] {
+				seen[s] = true
+				work = append(work, s)
+			}
+		}
+	}
+	return false
+}
+
+type c08Filter struct {
+	fn   *ssa.Function
+	pred int  // index of the predicate parameter
+	keep bool // the predicate says which elements stay (false: which ones go)
+}
+
+var c08FilterMemo = map[*ssa.Function]*c08Filter{}
+var c08FilterSeen = map[*ssa.Function]bool{}
+
+// c08InPlaceFilter: fn is a private method of the timeout collector that filters its slice in place by a predicate
+// parameter: kept := s.timeouts[:0]; for _, t := range s.timeouts { if keep(t) { kept = append(kept, t) } };
+// (clear the tail;) s.timeouts = kept. Order is preserved and nothing else is written.
+func c08InPlaceFilter(p *Prog, fn *ssa.Function) *c08Filter {
+	if c08FilterSeen[fn] {
+		return c08FilterMemo[fn]
+	}
+	c08FilterSeen[fn] = true
+	if fn == nil || fn.Blocks == nil || fn.Parent() != nil || fn.Object() == nil || fn.Object().Exported() || len(fn.Params) < 2 {
+		return nil
+	}
+	k := NewKeyer(p, fn)
+	fl := NewFlow(p, fn)
+	var kept *ssa.Phi
+	nStore := 0
+	okBody := true
+	eachInstr(fn, func(in ssa.Instruction) {
+		switch x := in.(type) {
+		case *ssa.Store:
+			if k.Key(x.Addr) == "&"+kTCField {
+				nStore++
+				kept, _ = x.Val.(*ssa.Phi)
+			} else if _, isAlloc := x.Addr.(*ssa.Alloc); !isAlloc {
+				if ia, isIA := x.Addr.(*ssa.IndexAddr); !isIA || !strings.HasPrefix(k.Key(ia.X), "alloc@") {
+					okBody = false // writes something else
+				}
+			}
+		case *ssa.MapUpdate, *ssa.Send, *ssa.Go, *ssa.Defer:
+			okBody = false
+		}
+	})
+	if nStore != 1 || kept == nil || !okBody || !isLoopHeaderPhi(kept) {
+		return nil
+	}
+	out := &c08Filter{fn: fn, pred: -1}
+	nApp := 0
+	for _, e := range kept.Edges {
+		switch x := e.(type) {
+		case *ssa.Slice:
+			if k.Key(x.X) != kTCField || x.Low != nil || !isIntConst(x.High, 0) {
+				return nil
+			}
+		case *ssa.Phi:
+			if x != kept {
+				return nil
+			}
+		case *ssa.Call:
+			b, isB := x.Call.Value.(*ssa.Builtin)
+			if !isB || b.Name() != "append" || x.Call.Args[0] != ssa.Value(kept) {
+				return nil
+			}
+			nApp++
+			var elem string
+			n := 0
+			storedInto(sliceBase(x.Call.Args[1]), func(ev ssa.Value) bool { elem = k.Key(ev); n++; return false })
+			if n != 1 || !strings.HasPrefix(elem, kTCField+"[(phi@") {
+				return nil
+			}
+			facts := fl.At(x)
+			found := false
+			for i, prm := range fn.Params {
+				if _, isSig := prm.Type().Underlying().(*types.Signature); !isSig {
+					continue
+				}
+				pre := "dyn p" + itoa(i) + "(" + elem + ")"
+				switch {
+				case trueOf(facts, func(s string) bool { return strings.HasPrefix(s, pre) }):
+					if out.pred >= 0 && (out.pred != i || !out.keep) {
+						return nil
+					}
+					out.pred, out.keep, found = i, true, true
+				case falseOf(facts, func(s string) bool { return strings.HasPrefix(s, pre) }):
+					if out.pred >= 0 && (out.pred != i || out.keep) {
+						return nil
+					}
+					out.pred, out.keep, found = i, false, true
+				}
+			}
+			if !found {
+				return nil
+			}
+		default:
+			return nil
+		}
+	}
+	if nApp != 1 || out.pred < 0 {
+		return nil
+	}
+	c08FilterMemo[fn] = out
+	return out
 }
